@@ -97,5 +97,35 @@ CONTRACTS = [
              callees={'taskchain.parameter:IgnoreForPersistence.remove': ByContract(spec='strip_markers')},
              ensures={'eq_spec': 'k5_text'}, ensures_raise={'missing_argument': 'k5_missing'},
              loops={0: Loop('k5_inv', vars={'i': Int, 'arg': Str, 'parameter': SigParamD, 'value': Dyn}, cells={'args': Map(Str, Dyn)})},
-             may_raise=['AssertionError'], l0=['A-inspect', 'A-repr', 'A-sorted', 'A-dict', 'A-strip-markers: IgnoreForPersistence.remove is taken by contract (recursive over config values) and is NOT verified'], searchable=False),
+             may_raise=['AssertionError'], l0=['A-inspect', 'A-repr', 'A-sorted', 'A-dict', 'A-strip-markers: IgnoreForPersistence.remove is taken by contract here and verified as K5.remove (defining equation, one unfolding; set-valued arguments excluded)'], searchable=False),
+]
+
+
+# ------------------------------------------------------------------------------------------------
+# IgnoreForPersistence.remove: one unfolding of the recursion (inductive step): with the recursive calls taken to be
+# strip_markers, the body computes strip_markers' defining equation - element order of lists kept, marked members dropped
+# ------------------------------------------------------------------------------------------------
+def strip_step(val):
+    if isinstance(val, list):
+        return [strip_markers(v) for v in val if not is_marker(v)]
+    if isinstance(val, dict):
+        return {k: strip_markers(v) for k, v in val.items() if not is_marker(v)}
+    return val
+
+
+def remove_post(val, result):
+    return result == strip_step(val)
+
+
+def remove_not_set(val):
+    """config values are JSON-like or parameter objects: no sets (a set has no order to keep)"""
+    return not isinstance(val, set)
+
+
+CONTRACTS += [
+    Contract(id='K5.remove', target='taskchain.parameter:IgnoreForPersistence.remove',
+             props={'C12': 'decisive', 'C02': 'supporting', 'C03': 'supporting'},
+             inputs={'val': S(Dyn, 'val')}, requires=['remove_not_set'],
+             callees={'taskchain.parameter:IgnoreForPersistence.remove': ByContract(spec='strip_markers')},
+             ensures={'defining_equation': 'remove_post'}, l0=['A-dyn'], searchable=False),
 ]
